@@ -345,7 +345,7 @@ func listenTargets() (*env, error) {
 			continue
 		}
 		return &env{targets: map[string]*relayenv.Sock{"a": a, "b": b, "ip": c, "rej": d}, tport: port, clients: map[string]*relayenv.Sock{},
-			addrOf: map[string]string{"a": fmt.Sprintf("a.test:%d", port), "b": fmt.Sprintf("b.test:%d", port), "ip": fmt.Sprintf("127.0.0.4:%d", port), "rej": fmt.Sprintf("127.0.0.5:%d", port)}}, nil
+			addrOf: map[string]string{"nx": fmt.Sprintf("nx.test:%d", port), "a": fmt.Sprintf("a.test:%d", port), "b": fmt.Sprintf("b.test:%d", port), "ip": fmt.Sprintf("127.0.0.4:%d", port), "rej": fmt.Sprintf("127.0.0.5:%d", port)}}, nil
 	}
 	return nil, fmt.Errorf("no free port set")
 }
@@ -394,7 +394,15 @@ func runBehaviour(t *testing.T, in *vio.Input, bi int, b vio.Behaviour, v varian
 	if stopBound > 8*time.Second {
 		stopBound = 8 * time.Second
 	}
+	var checkArrivals func(si int)
 	finish := func(si int) {
+		defer func() {
+			// whatever left the relay while it shut down must still be where its session addressed it
+			if checkArrivals != nil {
+				time.Sleep(20 * time.Millisecond)
+				checkArrivals(si)
+			}
+		}()
 		// end of behaviour: stop (if the behaviour has not) with every gate open, then account
 		w.freeAll()
 		if !stopBegun {
@@ -480,7 +488,7 @@ func runBehaviour(t *testing.T, in *vio.Input, bi int, b vio.Behaviour, v varian
 	lastPkt := map[string][]byte{}
 	warnCount := func() int { return r.Logs.FilterLevelExact(zapcore.WarnLevel).Len() }
 	// checkArrivals: every datagram must be at the socket of the target its session named, nowhere else
-	checkArrivals := func(si int) {
+	checkArrivals = func(si int) {
 		for name, ts := range e.targets {
 			for _, d := range ts.Drain() {
 				p := string(d.Payload)
@@ -669,7 +677,7 @@ func runBehaviour(t *testing.T, in *vio.Input, bi int, b vio.Behaviour, v varian
 				curPayload[a.S] = queued[a.S][0]
 				queued[a.S] = queued[a.S][1:]
 			}
-			if a.T == "a" || a.T == "b" {
+			if a.T == "a" || a.T == "b" || a.T == "nx" {
 				w.release(a.S, "uplink")
 				if pt, ok := w.waitParked(a.S, "uplink", stepTimeout, "direct.pack.beforeCheck"); !ok {
 					brk("uplink not at the cache check (at %q)", pt)
@@ -677,20 +685,34 @@ func runBehaviour(t *testing.T, in *vio.Input, bi int, b vio.Behaviour, v varian
 				}
 			}
 		case "PackChk":
+			warnsBefore := warnCount()
 			if !w.release(a.S, "uplink") {
 				brk("uplink not parked")
 				return
 			}
-			if a.Out == "hit" {
-				if pt, ok := w.waitParked(a.S, "uplink", stepTimeout, "direct.pack.beforeLoadIP", "direct.pack.afterResolve"); !ok || pt != "direct.pack.beforeLoadIP" {
-					if ok {
-						res.DriftNote(vio.Finding{Key: "relay.pack/cache-drift", Behaviour: bi, Step: si, Expected: "hit", Observed: "miss", Text: "resolution cache hit/miss differs from the model"})
-						finish(si)
-						return
-					}
-					brk("uplink did not finish the cache check (at %q)", pt)
-					return
+			// where does the packer go: a cache hit parks before the IP load, a miss resolves (and parks after the
+			// lookup) or fails (a warning is logged and the uplink moves on)
+			got := ""
+			dl := time.Now().Add(stepTimeout)
+			for got == "" && time.Now().Before(dl) {
+				if pt, _ := w.waitParked(a.S, "uplink", 0, "direct.pack.beforeLoadIP", "direct.pack.afterResolve"); pt == "direct.pack.beforeLoadIP" {
+					got = "hit"
+				} else if pt == "direct.pack.afterResolve" {
+					got = "miss"
+				} else if warnCount() > warnsBefore {
+					got = "miss" // lookup failed or was cancelled
+				} else {
+					time.Sleep(time.Millisecond)
 				}
+			}
+			if got == "" {
+				brk("uplink did not finish the cache check")
+				return
+			}
+			if got != a.Out {
+				res.DriftNote(vio.Finding{Key: "relay.pack/cache-drift", Behaviour: bi, Step: si, Expected: a.Out, Observed: got, Text: "resolution cache hit/miss differs from the model"})
+				finish(si)
+				return
 			}
 		case "PackRes":
 			if a.Out == "ok" {
@@ -705,9 +727,8 @@ func runBehaviour(t *testing.T, in *vio.Input, bi int, b vio.Behaviour, v varian
 				}
 			}
 			// "cancelled": the lookup fails because shutdown has begun; the packet is dropped, nothing to wait for
-			if a.Out == "cancelled" {
-				delete(expectArrive, curPayload[a.S])
-			}
+			// "cancelled" / "failed": the relay drops the packet; if it nevertheless arrives somewhere,
+			// checkArrivals reports where
 		case "PackSto":
 			if !w.release(a.S, "uplink") {
 				brk("uplink not parked")
